@@ -706,7 +706,19 @@ func runAtomicReplace(c *Ctx) {
 			case "MkdirAll":
 				c.Check(sh == "Dir(P)", key, call.Pos(), "creates the sidecar's parent directory", "MkdirAll on a sidecar-derived path of shape "+sh)
 			case "Remove":
-				c.Check(sh == "P", key, call.Pos(), "removes a rejected sidecar", "Remove on a sidecar-derived path of shape "+sh)
+				// not in the function that replaces the file: unlink + rename is two steps, a kill in between leaves no version at all
+				replaces := false
+				ast.Inspect(f.Body, func(m ast.Node) bool {
+					if c2, ok := m.(*ast.CallExpr); ok && calleeIs(info, c2, "os", "Rename") && len(c2.Args) == 2 && mentionsScPath(f, k, c2.Args[1]) {
+						replaces = true
+					}
+					return true
+				})
+				if sh == "P" && replaces {
+					c.Bad(key, call.Pos(), f.Name+" removes the sidecar and also renames a temp file onto it: the replacement is no longer one atomic step - a receiver killed between the unlink and the rename is left without any metadata, the previous valid version included")
+				} else {
+					c.Check(sh == "P", key, call.Pos(), "removes a rejected sidecar", "Remove on a sidecar-derived path of shape "+sh)
+				}
 			case "WriteFile":
 				c.Check(strings.HasPrefix(sh, "P+"), key, call.Pos(), "writes the temp file "+sh, "the sidecar is written in place ("+types.ExprString(args[0])+" has shape "+sh+"): a kill during the write leaves a torn current version")
 			case "Rename":
